@@ -106,8 +106,11 @@ func VerifC12Bidirectional() {
 		panic(err)
 	}
 	subnets := []Subnet{
-		{CIDR: verifCIDR("10.10.0.0/16"), Weight: 1, Transport: "Min_Transport"},
-		{CIDR: verifCIDR("10.20.30.0/24"), Weight: 3, Transport: "Min_Transport"},
+		// weights: the last subnet of each transport owns an interval of the weighted draw that lies
+		// entirely above the share of registrations that are overridden at all (50 %), so its
+		// witness needs the two draws to be independent
+		{CIDR: verifCIDR("10.10.0.0/16"), Weight: 3, Transport: "Min_Transport"},
+		{CIDR: verifCIDR("10.20.30.0/24"), Weight: 1, Transport: "Min_Transport"},
 		{CIDR: verifCIDR("10.50.0.0/16"), Weight: 2, Port: 80, Transport: "Prefix_Transport", PrefixId: prefix.GetLong},
 		{CIDR: verifCIDR("10.60.70.0/24"), Weight: 2, Port: 22, Transport: "Prefix_Transport", PrefixId: prefix.OpenSSH2},
 	}
@@ -229,12 +232,20 @@ func VerifC12Bidirectional() {
 				pp, ok := verifPrefixParams(resp)
 				verifnd.Assert(ok && pp.GetPrefixId() == int32(sn.PrefixId) && resp.GetDstPort() == sn.Port, "C12.prefix-override-matches-its-subnet")
 			}
-			if c && i == 0 {
-				// verif:must-reach C12.first-override-subnet-used finding=C12-F1
-				verifnd.Reach("C12.first-override-subnet-used")
-			}
-			if c && i == 1 {
-				verifnd.Reach("C12.second-override-subnet-used")
+			// one witness per transport and subnet: every override subnet with a non-zero weight is used
+			switch {
+			case c && i == 0 && !isPrefix:
+				// verif:must-reach C12.min.first-override-subnet-used finding=C12-F1
+				verifnd.Reach("C12.min.first-override-subnet-used")
+			case c && i == 1 && !isPrefix:
+				// verif:must-reach C12.min.second-override-subnet-used
+				verifnd.Reach("C12.min.second-override-subnet-used")
+			case c && i == 0 && isPrefix:
+				// verif:must-reach C12.prefix.first-override-subnet-used finding=C12-F1
+				verifnd.Reach("C12.prefix.first-override-subnet-used")
+			case c && i == 1 && isPrefix:
+				// verif:must-reach C12.prefix.second-override-subnet-used
+				verifnd.Reach("C12.prefix.second-override-subnet-used")
 			}
 		}
 		verifnd.Assert(in, "C12.override-address-inside-configured-subnet")
